@@ -29,3 +29,62 @@ Example C06_mpeg1video_example :
   option_map (fun pss => (map pseq (concat pss), map pmarker (concat pss)))
     (enc_many 8 65534 [[0;0;1;1;9;9;9]; [0;0;1;2]]) = Some ([65534; 65535; 0], [false; true; true]).
 Proof. vm_compute. reflexivity. Qed.
+
+(* ---- the translated kernels (tools/go2coq, regenerated from the Go source on every run) ----
+   The integer formulas of rtpmpeg1video/encoder.go - lenAggregated (n := 4 + len(slice); n += len(fr)), the batching
+   test lenAggregated(batch, slice) <= PayloadMaxSize, the writeBatch decision len(slices) != 1 ||
+   lenAggregated(slices, nil) < PayloadMaxSize, the fragment budget PayloadMaxSize - 4, the fragment count
+   packetCount(avail, len(slice)), the size 4+le of a fragment packet, the last-fragment test, the header bytes
+   byte(tr >> 8), byte(tr), bos<<5 | start<<4 | end<<3 | frameType (both copies), temporalReference and frameType,
+   the picture-header length test len(slice) < 6, the start codes 0 and 0xB8, the two e.sequenceNumber++ - ARE the
+   formulas of Model.batching / batch_payloads / header / upd / picture_check / mk_pkts:
+   4 + nlen s + total batch <=? max, 4 + nlen s <? max, chunks (max - 4), htr / 256, htr mod 256,
+   bos*32 + start*16 + stop*8 + hft, s4*4 + s5/64, (s5/8) mod 8, seq_next. *)
+From Coq Require Import ZArith.
+From GVL Require Import Chunks.
+From GVG Require Import Kern.
+From GV_mpeg1video Require Import BridgeLib Bridge.
+Open Scope Z_scope.
+
+Theorem C06_mpeg1video_kernels_are_the_code :
+  forall (max : N) (batch : list bytes) (s c : bytes) (h : hdr) (bos st sp ft tr s4 s5 i pc sq : N),
+  (5 <= max)%N -> Z.of_N max < i64max -> Z.of_N (4 + nlen s + Model.total batch) < i64max -> Z.of_N (nlen c) + 4 < i64max ->
+  (1 <= pc)%N -> Z.of_N pc < i64max -> bit bos -> bit st -> bit sp -> (ft < 8)%N -> u16 tr -> byte s4 -> byte s5 ->
+  la_code batch (Some s) = Z.of_N (4 + nlen s + Model.total batch) /\
+  k_mpeg1video_agg_fits (la_code batch (Some s)) (Z.of_N max) = (4 + nlen s + Model.total batch <=? max)%N /\
+  k_mpeg1video_aggregate (Z.of_N (nlen batch)) (la_code batch None) (Z.of_N max)
+    = (negb (nlen batch =? 1)%N || (4 + Model.total batch <? max)%N) /\
+  k_mpeg1video_aggregate (Z.of_N (nlen [s])) (la_code [s] None) (Z.of_N max) = (4 + nlen s <? max)%N /\
+  k_mpeg1video_frag_avail (Z.of_N max) = Z.of_N (max - 4) /\
+  k_mpeg1video_packetCount (k_mpeg1video_frag_avail (Z.of_N max)) (k_mpeg1video_frag_le (Z.of_N (nlen s)))
+    = Some (Z.of_N (nlen (chunks (max - 4) s))) /\
+  k_mpeg1video_frag_size (Z.of_N (nlen c)) = Z.of_N (nlen (header h bos st sp ++ c)) /\
+  k_mpeg1video_frag_last (Z.of_N i) (Z.of_N pc) = (i + 1 =? pc)%N /\
+  k_mpeg1video_frag_h0 (Z.of_N tr) = Z.of_N (tr / 256) /\ k_mpeg1video_frag_h1 (Z.of_N tr) = Z.of_N (tr mod 256) /\
+  k_mpeg1video_agg_h0 (Z.of_N tr) = Z.of_N (tr / 256) /\ k_mpeg1video_agg_h1 (Z.of_N tr) = Z.of_N (tr mod 256) /\
+  k_mpeg1video_frag_h2 (Z.of_N bos) (Z.of_N st) (Z.of_N sp) (Z.of_N ft) = Z.of_N (bos * 32 + st * 16 + sp * 8 + ft) /\
+  k_mpeg1video_agg_h2 (Z.of_N bos) (Z.of_N ft) = Z.of_N (bos * 32 + 1 * 16 + 1 * 8 + ft) /\
+  k_mpeg1video_tr (Z.of_N s4) (Z.of_N s5) = Z.of_N (s4 * 4 + s5 / 64) /\
+  k_mpeg1video_ft (Z.of_N s5) = Z.of_N ((s5 / 8) mod 8) /\
+  k_mpeg1video_pic_short (Z.of_N (nlen s)) = (nlen s <? 6)%N /\
+  k_mpeg1video_pic_code = Z.of_N 0 /\ k_mpeg1video_gop_code = Z.of_N 184 /\
+  k_mpeg1video_seq_frag (Z.of_N sq) = Z.of_N (seq_next sq) /\ k_mpeg1video_seq_agg (Z.of_N sq) = Z.of_N (seq_next sq).
+Proof. exact enc_kernels_are_the_code. Qed.
+Print Assumptions C06_mpeg1video_kernels_are_the_code.
+
+(* the translated kernels compute, on the boundaries: a 1450-byte limit leaves 1446 bytes per fragment; an aggregate of
+   exactly 1450 bytes fits, 1451 does not; a single slice of 1446 bytes (4+1446 = 1450) is fragmented, 1445 is sent
+   alone, two slices are always aggregated; 2892 bytes need 2 fragments, 2893 need 3; a fragment packet is 4+le bytes;
+   lenAggregated([3 bytes], 2 bytes) = 4 + 2 + 3; temporalReference 0x3ff -> bytes 3, 255; B+E+type 1 = 0x19; 65535++ = 0 *)
+Example C06_mpeg1video_example_kernels :
+  k_mpeg1video_frag_avail 1450 = 1446 /\ k_mpeg1video_agg_fits 1450 1450 = true /\ k_mpeg1video_agg_fits 1451 1450 = false /\
+  k_mpeg1video_aggregate 1 1450 1450 = false /\ k_mpeg1video_aggregate 1 1449 1450 = true /\
+  k_mpeg1video_aggregate 2 1460 1450 = true /\
+  k_mpeg1video_packetCount (k_mpeg1video_frag_avail 1450) (k_mpeg1video_frag_le 2892) = Some 2 /\
+  k_mpeg1video_packetCount (k_mpeg1video_frag_avail 1450) (k_mpeg1video_frag_le 2893) = Some 3 /\
+  k_mpeg1video_frag_size 1446 = 1450 /\ la_code [[1; 2; 3]%N] (Some [4; 5]%N) = 9 /\
+  k_mpeg1video_frag_h0 1023 = 3 /\ k_mpeg1video_frag_h1 1023 = 255 /\ k_mpeg1video_agg_h2 0 1 = 25 /\
+  k_mpeg1video_frag_h2 1 1 0 2 = 50 /\ k_mpeg1video_tr 255 192 = 1023 /\ k_mpeg1video_ft 8 = 1 /\
+  k_mpeg1video_pic_short 5 = true /\ k_mpeg1video_pic_short 6 = false /\ k_mpeg1video_seq_frag 65535 = 0 /\
+  k_mpeg1video_frag_last 2 3 = true /\ k_mpeg1video_frag_last 1 3 = false.
+Proof. vm_compute. repeat split. Qed.
